@@ -1,4 +1,5 @@
 import Sparrow.Proofs.StokesLemmas
+import Sparrow.Proofs.StokesConstants
 /-
   C06 — Numerical form factors match the exact view-factor integral within the envelope.
 
